@@ -40,6 +40,7 @@ gd_type_t _GD_NativeType(DIRFILE *restrict D, gd_entry_t *restrict E, int repr)
   _GD_FindInputs(D, E, 1);
 
   if (D->error) {
+    D->recurse_level--;
     dreturn("%u", GD_UNKNOWN);
     return GD_UNKNOWN;
   }
